@@ -49,9 +49,12 @@ func fnDiscard(ctx *cmdContext, args map[string]any) (output respValue, err erro
 	return
 }
 
-func isAbortedExecUnlocked(cs *clientState) bool {
+// Checks the watched keys that live in the data store the caller holds the exclusive
+// lock of. (That is the selected one when EXEC starts, but not necessarily later: a
+// queued SELECT moves the connection while EXEC keeps the lock it started with.)
+func isAbortedExecUnlocked(cs *clientState, locked *dataStore) bool {
 	for watch, id := range cs.watches {
-		if watch.ds != cs.ds {
+		if watch.ds != locked {
 			// checked by isAbortedExecOtherDbs, with that data store locked
 			continue
 		}
@@ -120,7 +123,7 @@ func fnExec(ctx *cmdContext, args map[string]any) (output respValue, err error) 
 	defer ctx.cs.setMultiInProgress(false)
 
 	// check the watches; if anything has changed, return null
-	if abortedElsewhere || isAbortedExecUnlocked(ctx.cs) {
+	if abortedElsewhere || isAbortedExecUnlocked(ctx.cs, ctx.dsc.ds) {
 		// the transaction is over: back to normal mode, nothing queued, nothing watched
 		ctx.cs.watches = map[watchKey]uint64{}
 		ctx.cs.cmdQueue = nil
